@@ -11,6 +11,10 @@ use crate::{
 
 /// See `fallocate(2)`.
 pub fn fallocate(fd: BorrowedFd<'_>, mode: c_int, off: i64, len: i64) -> Result<(), Errno> {
+    #[cfg(aranya_verif)]
+    if let Some(r) = crate::verif::fallocate(fd.fd, mode, off, len) {
+        return r;
+    }
     // SAFETY: FFI call, no invariants.
     let ret = unsafe { libc::fallocate64(fd.fd, mode, off, len) };
     if ret < 0 { Err(errno()) } else { Ok(()) }
@@ -18,6 +22,10 @@ pub fn fallocate(fd: BorrowedFd<'_>, mode: c_int, off: i64, len: i64) -> Result<
 
 /// See `fdatasync(2)`.
 pub fn fdatasync(fd: BorrowedFd<'_>) -> Result<(), Errno> {
+    #[cfg(aranya_verif)]
+    if let Some(r) = crate::verif::fdatasync(fd.fd) {
+        return r;
+    }
     // SAFETY: FFI call, no invariants.
     let ret = unsafe { libc::fdatasync(fd.fd) };
     if ret < 0 { Err(errno()) } else { Ok(()) }
@@ -25,6 +33,10 @@ pub fn fdatasync(fd: BorrowedFd<'_>) -> Result<(), Errno> {
 
 /// See `read(2)`.
 pub fn pread(fd: BorrowedFd<'_>, buf: &mut [u8], off: i64) -> Result<usize, Errno> {
+    #[cfg(aranya_verif)]
+    if let Some(r) = crate::verif::pread(fd.fd, buf, off) {
+        return r;
+    }
     // SAFETY: FFI call, no invariants.
     let ret = unsafe { libc::pread64(fd.fd, buf.as_mut_ptr().cast(), buf.len(), off) };
     if ret < 0 {
@@ -39,6 +51,10 @@ pub fn pread(fd: BorrowedFd<'_>, buf: &mut [u8], off: i64) -> Result<usize, Errn
 
 /// See `write(2)`.
 pub fn pwrite(fd: BorrowedFd<'_>, buf: &[u8], off: i64) -> Result<usize, Errno> {
+    #[cfg(aranya_verif)]
+    if let Some(r) = crate::verif::pwrite(fd.fd, buf, off) {
+        return r;
+    }
     // SAFETY: FFI call, no invariants.
     let ret = unsafe { libc::pwrite64(fd.fd, buf.as_ptr().cast(), buf.len(), off) };
     if ret < 0 {
